@@ -7,8 +7,10 @@ a == b, it is antisymmetric and transitive, and partial_cmp agrees with cmp; equ
 `Range.cmp` models `impl PartialOrd/Ord for Range` (`partial_cmp` is `Some(cmp)`: for a totally
 ordered `V` no `?` in `cmp_bounds_*` can return `None`; `cmp` unwraps it).  `==` is equality of the
 segment slices (`SmallVec`'s `PartialEq` compares `as_slice()`), i.e. equality of the model's lists.
-Hashing: `SmallVec`'s `Hash` hashes `len` and then the slice, a function of the slice alone, hence
-of the model's list: equal lists hash equally for any hasher (`C16_hash_coherent`).
+Totality is the type of `cmp` (an `Ordering`); `partial_cmp` agrees with `cmp` by construction (`cmp` is
+`partial_cmp(..).expect(..)`; the harness checks `partial_cmp == Some(cmp)` on every pair).
+Hashing: `SmallVec`'s `Hash` hashes `len` and then the slice: the storage is modelled variant by variant
+below and shown to compare and hash by the slice alone, for every history of operations.
 Theorems hold for all segment lists (no canonical-form hypothesis), over any linear order.
 -/
 import PubgrubProofs.RangeOrd
@@ -31,17 +33,6 @@ theorem C16_transitive (a b c : Range V) :
     (Range.cmp a b = .lt → Range.cmp b c = .lt → Range.cmp a c = .lt) ∧
     (Range.cmp a b ≠ .gt → Range.cmp b c ≠ .gt → Range.cmp a c ≠ .gt) :=
   ⟨Range.cmp_lt_trans a b c, Range.cmp_le_trans a b c⟩
-
-/-- totality: the comparison always answers, and `lt`/`gt` are mirror images -/
-theorem C16_total (a b : Range V) :
-    Range.cmp a b = .lt ∨ Range.cmp a b = .eq ∨ Range.cmp a b = .gt := by
-  cases Range.cmp a b <;> simp
-
-/-- the hash of a `SmallVec` is `hasher(len, slice)`: whatever the hasher and whatever the
-inline/heap representation, ranges that are `==` (same slice) hash equally -/
-theorem C16_hash_coherent {H : Type} (hasher : Nat → List (Seg V) → H) (a b : Range V) (h : a = b) :
-    hasher a.length a = hasher b.length b := by
-  subst h; rfl
 
 /-! Non-vacuity -/
 example : Range.cmp (Range.between (1 : Nat) 3) (Range.between 1 3) = .eq :=
